@@ -10,8 +10,15 @@ HEADS = ["", "<head>", "<head></head>", "<head><title>t</title>", "<head><meta c
          "<head><meta http-equiv=content-type content='text/html; charset=x'>", "<head><meta content='text/html; charset=x' http-equiv=Content-Type>",
          "<head><meta name=a content=b>", "<head><meta http-equiv=refresh content=1>", "<head><title>é€𝔄</title><link>",
          "<title>" + "x" * 1100 + "</title><meta charset=koi8-r>", "<head><meta CHARSET=x>", "<svg><head></head></svg>",
-         "<head><meta http-equiv=content-type>", "<head><script>var a='<meta charset=x>'</script>"]
-BODIES = ["<p>é€𝔄 text", "<p a='é€'>x", "plain", "<p>\x85\x9f", "<table><td>☃", "<!--é-->", ""]
+         "<head><meta http-equiv=content-type>", "<head><script>var a='<meta charset=x>'</script>"] + \
+        ["<head><title>t</title><style>" + "p{color:red} " * 110 + "</style><meta http-equiv=%s content='text/html; charset=iso-8859-1'>" % h
+         for h in ("Content-Type", "CONTENT-TYPE", "content-type", "cOnTeNt-TyPe")] + \
+        ["<head><title>" + "y" * 1200 + "</title><meta content='text/html; charset=x' http-equiv=%s>" % h for h in ("Content-Type", "CONTENT-type")]
+BODIES = ["<p>é€𝔄 text", "<p a='é€'>x", "plain", "<p>\x85\x9f", "<table><td>☃", "<!--é-->", "",
+          # characters whose entity name is stored without ";" (upper-case Latin-1 letters), followed by what decides
+          # whether an unterminated reference is decoded: a letter, a digit, "=", ";" -- in text and in attribute values
+          "<p title='Écran É; À=1 Ö2 Ñ-x'>Écran É; À=1 Ö2", "<p title='MENÚ2 qÑ=1 ÆÇÐÞÝ'>ÆÇÐÞÝx;", "<a href='?É=1&Àb=2'>Øre</a>",
+          "<p title='Привет É'>Привет, мир Ü;", "<p>ÁÂÃÄÅÈÊËÌÍÎÏÒÓÔÕÙÛÜ;x"]
 
 
 def tok(rng):
@@ -50,7 +57,8 @@ class C15(Plugin):
     def known_witnesses(self):
         return {"C15-non-ascii-compatible-encoding": {"k": 1, "src": "<head><title>é</title></head><p>x", "enc": "utf-16le", "omit": False},
                 "C15-unencodable-in-rawtext-element": {"k": 1, "src": "<style>😀</style>", "enc": "windows-1257", "omit": False},
-                "C15-unencodable-c1-control": {"k": 1, "src": "<p>a\x85b", "enc": "us-ascii", "omit": False}}
+                "C15-unencodable-c1-control": {"k": 1, "src": "<p>a\x85b", "enc": "us-ascii", "omit": False},
+                "C15-label-codec-mismatch": {"k": 1, "src": "<p>Привет", "enc": "big5", "omit": False}}
 
     def cases(self, rng, n, tier):
         import webencodings
@@ -122,9 +130,32 @@ class C15(Plugin):
                 v.append(("unencodable-c1-control-roundtrip", repr(case)))
             elif self._rawtext_unencodable(case):
                 v.append(("unencodable-in-rawtext-element", repr(case)))
+            elif self._label_codec_mismatch(case):
+                v.append(("label-codec-mismatch", repr(case)))
             else:
                 v.append(("decoded-tree-differs", repr((case, out[2]))))
         return v
+
+    @staticmethod
+    def _label_codec_mismatch(case):
+        """the serializer encodes with PYTHON's codec of that name, the parser decodes with the codec the label means
+        in HTML (webencodings): do the two disagree on some character of this document?"""
+        import codecs
+        import webencodings
+        try:
+            py = codecs.lookup(case["enc"])
+            web = webencodings.lookup(case["enc"]).codec_info
+        except LookupError:
+            return False
+        if py.name == web.name:
+            return False
+        for ch in set(case["src"]):
+            try:
+                if web.decode(py.encode(ch)[0])[0] != ch:
+                    return True
+            except UnicodeError:
+                continue
+        return False
 
     @staticmethod
     def _rawtext_unencodable(case):
@@ -152,6 +183,8 @@ class C15(Plugin):
             return "C15-unencodable-in-rawtext-element"
         if cls == "unencodable-c1-control-roundtrip":
             return "C15-unencodable-c1-control"
+        if cls == "label-codec-mismatch":
+            return "C15-label-codec-mismatch"
         if cls == "non-ascii-compatible-encoding":
             return "C15-non-ascii-compatible-encoding"
         return None
